@@ -66,12 +66,57 @@ type listAPI interface {
 	// steps; cyc reports that the traversal did not end within the bound (the ring is cyclic).
 	Walk(cap int) (vals []int, cyc bool)
 	RevWalk(cap int) (vals []int, cyc bool)
+	// Abort: ForEach (rev: ForEachReverse) with a callback that fails at its k-th call: the values the callback
+	// received and "err" (the traversal ended with exactly that error) / "ok" (it ended with nil).
+	Abort(k int, rev bool) (vals []int, how string)
 	Prev(e any) any
 	Next(e any) any
 	Value(e any) int
 }
 
 type hiveL struct{ l ds.List[int] }
+
+var tsCalls int
+
+// newTS creates a thread-safe list through each of the spellings that must give one: NewList(), NewList(false),
+// NewList(false, true) (only the first optional argument counts).
+func newTS() ds.List[int] {
+	tsCalls++
+	switch tsCalls % 3 {
+	case 1:
+		return ds.NewList[int](false)
+	case 2:
+		return ds.NewList[int](false, true)
+	}
+
+	return ds.NewList[int]()
+}
+
+// flavourSelection: which implementation NewList hands out for every spelling of the optional argument.
+func flavourSelection(r *hx.Run) {
+	for _, c := range []struct {
+		name string
+		l    ds.List[int]
+		want string
+	}{
+		{"NewList()", ds.NewList[int](), "*ds.threadSafeList[int]"},
+		{"NewList(false)", ds.NewList[int](false), "*ds.threadSafeList[int]"},
+		{"NewList(true)", ds.NewList[int](true), "*ds.list[int]"},
+		{"NewList(false, true)", ds.NewList[int](false, true), "*ds.threadSafeList[int]"},
+		{"NewList(true, false)", ds.NewList[int](true, false), "*ds.list[int]"},
+	} {
+		got := fmt.Sprintf("%T", c.l)
+		r.Count("flavour:" + c.name)
+		if got != c.want {
+			r.Fail("flavour-selection", fmt.Sprintf("%s returns a %s, want %s", c.name, got, c.want),
+				map[string]string{"part": "constructor", "call": c.name, "got": got})
+		}
+		// a fresh list of either flavour is an initialised empty list
+		if c.l.Len() != 0 || c.l.Front() != nil || c.l.Back() != nil || len(c.l.Values()) != 0 {
+			r.Fail("flavour-selection", c.name+": a fresh list is not empty", map[string]string{"part": "constructor", "call": c.name, "got": "non-empty"})
+		}
+	}
+}
 
 func hel(e any) ds.ListElement[int] {
 	if e == nil {
@@ -125,8 +170,19 @@ func (a hiveL) Walk(cap int) ([]int, bool) {
 	vs := a.l.Values()
 	n := 0
 	a.l.Range(func(int) { n++ })
-	if fmt.Sprint(vs) != fmt.Sprint(out) || n != len(out) {
+	if fmt.Sprint(vs) != fmt.Sprint(out) || n != len(out) || vs == nil {
 		return append(out, -999999), false // Values()/Range disagree with ForEach: shows up as a difference
+	}
+	// the slice Values() returns belongs to the caller: scribbling over it changes neither the list nor what the
+	// next call returns
+	for i := range vs {
+		vs[i] = -555555
+	}
+	if len(vs) > 0 {
+		_ = append(vs[:0], -555555)
+	}
+	if vs2 := a.l.Values(); fmt.Sprint(vs2) != fmt.Sprint(out) {
+		return append(out, -888888), false
 	}
 
 	return out, false
@@ -152,6 +208,39 @@ func (a hiveL) RevWalk(cap int) ([]int, bool) {
 
 	return out, false
 }
+var errAbort = fmt.Errorf("callback failed")
+
+func (a hiveL) Abort(k int, rev bool) ([]int, string) {
+	out := []int{}
+	cb := func(v int) error {
+		out = append(out, v)
+		if len(out) == k {
+			return errAbort
+		}
+		if len(out) > k {
+			out = append(out, -777777) // called again after it had failed
+
+			return errAbort
+		}
+
+		return nil
+	}
+	var err error
+	if rev {
+		err = a.l.ForEachReverse(cb)
+	} else {
+		err = a.l.ForEach(cb)
+	}
+	switch {
+	case err == nil:
+		return out, "ok"
+	case err == errAbort: //nolint:errorlint // identity: the callback's own error must come back unwrapped
+		return out, "err"
+	}
+
+	return out, "other-error"
+}
+
 func (a hiveL) Prev(e any) any  { return hany(hel(e).Prev()) }
 func (a hiveL) Next(e any) any  { return hany(hel(e).Next()) }
 func (a hiveL) Value(e any) int { return hel(e).Value() }
@@ -220,6 +309,27 @@ func (a stdL) RevWalk(cap int) ([]int, bool) {
 
 	return out, false
 }
+func (a stdL) Abort(k int, rev bool) ([]int, string) {
+	out := []int{}
+	e := a.l.Front()
+	if rev {
+		e = a.l.Back()
+	}
+	for e != nil {
+		out = append(out, ival(e.Value))
+		if len(out) == k {
+			return out, "err"
+		}
+		if rev {
+			e = e.Prev()
+		} else {
+			e = e.Next()
+		}
+	}
+
+	return out, "ok"
+}
+
 func (a stdL) Prev(e any) any  { return sany(sel(e).Prev()) }
 func (a stdL) Next(e any) any  { return sany(sel(e).Next()) }
 func (a stdL) Value(e any) int { return ival(sel(e).Value) }
@@ -390,6 +500,10 @@ func (w *world) apply(f []string) string {
 		w.fresh += n
 	case "init":
 		l.Init()
+	case "fe", "fer":
+		vals, how := l.Abort(atoi(f[2]), f[0] == "fer")
+
+		return how + " " + ints(vals)
 	default:
 		return "bad-op"
 	}
@@ -873,6 +987,14 @@ func genCase(rng *hx.Rng, n int, mode int) []string {
 		default:
 			op = fmt.Sprintf("init %s", L)
 		}
+		if rng.Chance(1, 12) {
+			// a traversal whose callback fails at its k-th call (k beyond the end: never)
+			k := 1 + rng.Intn(std.l[l].Len()+2)
+			if std.l[l].Len() < 0 || k > 12 {
+				k = 1 + rng.Intn(12)
+			}
+			op = fmt.Sprintf("%s %s %d", hx.Pick(rng, []string{"fe", "fer"}), L, k)
+		}
 		f := strings.Fields(op)
 		if strings.Contains(op, "-1") {
 			continue // no handle exists yet
@@ -955,7 +1077,7 @@ func checkQuiescent(r *hx.Run, mode string, l ds.List[int], inserted, removed ma
 
 // stressRound: goroutines doing PushBack/InsertAfter/Remove/Move*/reads on a small window of shared handles.
 func stressRound(r *hx.Run, rng *hx.Rng, goroutines, opsEach int) (ops int) {
-	l := ds.NewList[int]()
+	l := newTS()
 	var mu sync.Mutex
 	var pool []ds.ListElement[int]
 	inserted, removed := map[int]bool{}, map[int]bool{}
@@ -1069,7 +1191,7 @@ func stressRound(r *hx.Run, rng *hx.Rng, goroutines, opsEach int) (ops int) {
 // of [a b c], lets both reach the mutex, releases the reader, and checks the outcome.
 func forcedPair(r *hx.Run, variant string, useForEach bool) {
 	mode := "forced:" + variant
-	l := ds.NewList[int]()
+	l := newTS()
 	a, b := l.PushBack(1), l.PushBack(2)
 	l.PushBack(3)
 	inserted, removed := map[int]bool{1: true, 2: true, 3: true}, map[int]bool{2: true}
@@ -1273,7 +1395,7 @@ func describe(got, state []int) string {
 // call delivers must be exactly one of the states the list went through between the start and the end of that call.
 func snapshotRound(r *hx.Run, rng *hx.Rng, n, readers, readsEach, writers, writesEach int) bool {
 	const mode = "snapshot-stress"
-	l := ds.NewList[int]()
+	l := newTS()
 	elems := map[int]ds.ListElement[int]{}
 	var cur []int
 	for v := 1; v <= n; v++ {
@@ -1409,7 +1531,7 @@ func snapshotRound(r *hx.Run, rng *hx.Rng, n, readers, readsEach, writers, write
 func forcedSnapshot(r *hx.Run, kind string) bool {
 	mode := "snapshot-forced:" + kind
 	const n = 300
-	l := ds.NewList[int]()
+	l := newTS()
 	var state []int
 	var first, last ds.ListElement[int]
 	for v := 1; v <= n; v++ {
@@ -1489,7 +1611,7 @@ func forcedSnapshot(r *hx.Run, kind string) bool {
 // arrives in between).
 func hammer(r *hx.Run, d time.Duration) bool {
 	const mode = "hammer"
-	l := ds.NewList[int]()
+	l := newTS()
 	var es []ds.ListElement[int]
 	for v := 1; v <= 4; v++ {
 		es = append(es, l.PushBack(v))
@@ -1609,6 +1731,7 @@ func main() {
 
 		return
 	}
+	flavourSelection(r)
 	corpus := [][]string{
 		// MoveBefore/MoveAfter must use the position argument
 		{"pb A 1", "pb A 2", "pb A 3", "mvb A 5 3", "mva A 3 4", "mvb A 4 5", "mva A 5 5"},
@@ -1628,6 +1751,12 @@ func main() {
 		{"pb A 1", "pb A 2", "pb A 3", "init A", "ib A 9 4", "ia A 8 3", "init A", "pf A 7", "mvb A 5 3", "init A", "pb A 6"},
 		{"pb A 1", "pb B 2", "init A", "init B", "rm A 3", "rm B 4", "init B", "pb B 5", "pbl A B", "init A", "pfl A B"},
 	}
+	corpus = append(corpus,
+		// ForEach / ForEachReverse aborted by the callback's error at the k-th element, beyond the end, on the empty list
+		[]string{"fe A 1", "fer A 1", "pb A 1", "pb A 2", "pb A 3", "fe A 1", "fe A 2", "fe A 3", "fe A 4", "fer A 1", "fer A 3",
+			"fer A 4", "rm A 4", "fe A 2", "fer A 2", "fe B 1"},
+		// the same on a ring corrupted by a stale handle (Len -1, then a re-linked stale element)
+		[]string{"pb A 1", "pb A 2", "init A", "rm A 3", "fe A 1", "fer A 2", "mf A 4", "fe A 1", "fe A 3", "fer A 1"})
 	for i, c := range corpus {
 		runCase(r, uint64(i), c)
 	}
